@@ -14,7 +14,9 @@ from . import _layout, _pipe
 SIG_KINDS = ("autograd", "pack", "unpack", "aggregator_call", "grad_write", "create", "zip", "set_op", "diag", "reshape")  # validation of discovered leaves is vacuous: not compared
 
 
-def path_signature(res, rename: dict):
+def path_signature(res, rename: dict, skip=None):
+    """skip: atoms whose order tokens are left out of the signature — the same list on both sides of a comparison."""
+    skip = list(skip) if skip is not None else list(rename) + list(rename.values())
     sig = []
     for e in res.events:
         if e["kind"] not in SIG_KINDS or "seq" not in e:
@@ -37,7 +39,7 @@ def path_signature(res, rename: dict):
         if e["kind"] in ("pack", "diag"):
             o = str(e.get("order") or e.get("layout"))
             txt += "|" + ren(o).replace("'unordered'", "'*'").replace("'same'", "'*'") if any(a in o for a in ("tensors", "features", "losses", "tasks")) and not any(
-                a in o for a in list(rename) + list(rename.values())) else ""
+                a in o for a in skip) else ""
         sig.append((e["kind"], e["loc"], txt))
     return tuple(sig)
 
@@ -68,7 +70,7 @@ def check(index, ctx):
     for name, explicit, default, ren in pairs:
         if explicit is None or default is None:
             raise AnalysisError("entry variants missing")
-        se = {path_signature(r, {}) for r in _pipe.main_paths(explicit)}
+        se = {path_signature(r, {}, skip=list(ren) + list(ren.values())) for r in _pipe.main_paths(explicit)}
         sd = {path_signature(r, ren) for r in _pipe.main_paths(default)}
         blk = [e for r in _pipe.main_paths(default) + _pipe.main_paths(explicit) for e in _pipe.blocking(r)]
         if blk:
